@@ -240,3 +240,45 @@ def o_imports(outs):
         if o.get("imports"):
             return o["imports"]
     return IMPORTS
+
+
+FINAL_NAME = {"postal_code": "state_data", "county_fips": "county_data", "district": "district_data", "county_classification": "classification_data", "unit": "unit_data"}
+
+
+def final_vs_estimates(case, h):
+    """the tables the caller receives (final_results) carry, cell for cell, the numbers the models handed to the results handler, for every estimand:
+    returns a list of differences (empty = equal)"""
+    out = []
+    p = case["params"]
+    for agg in p["aggregates"]:
+        name = FINAL_NAME.get(agg)
+        final = h.get("final_tables", {}).get(name)
+        if final is None:
+            continue
+        for e in p["estimands"]:
+            src = h["unit"][e] if agg == "unit" else h["agg"].get(f"{e}|{agg}", {}).get("rows")
+            if src is None:
+                continue
+            keycols = ["postal_code", "geographic_unit_fips"] if agg == "unit" else aggregate_list(case["office"], agg)
+            fin = {}
+            for r in final:
+                fin.setdefault(tuple(str(r.get(c)) for c in keycols), r)
+            for r in src:
+                fr = fin.get(tuple(str(r.get(c)) for c in keycols))
+                if fr is None:
+                    out.append(f"{name}: no row for {[r.get(c) for c in keycols]}")
+                    break
+                bad = None
+                for c, v in r.items():
+                    if c in keycols or not isinstance(v, (int, float)) or isinstance(v, bool) or c not in fr or not c.endswith(e) and c != "reporting":
+                        continue
+                    w = fr[c]
+                    if (v != v) != (w != w) or (v == v and abs(float(v) - float(w)) > 1e-12 * max(1.0, abs(float(v)))):
+                        bad = (c, v, w)
+                        break
+                if bad:
+                    out.append(f"{name} row {[r.get(c) for c in keycols]}: column {bad[0]} is {bad[2]} in the returned table, the model's number is {bad[1]}")
+                    break
+            if out:
+                return out
+    return out
